@@ -170,8 +170,6 @@ def fragment(v, case, reeval):
         cur = list(case.prog)
         chain = [("int-field-constant-first-operand", r_swap_int_field_operands),
                  ("end-of-program-fallthrough-not-an-exit", r_append_return)]
-        if v.get("detector") == "missing-fee-check" and v["kind"] == "reported-although-guarded":
-            chain.append(("fee-domain-keeps-no-lower-bound", r_opaque_fee_lower_bounds))
         for name, R in chain:
             nxt, changed = R(cur)
             if not changed:
